@@ -168,7 +168,7 @@ class Importer:
             >>> importer.import_file('file.krn')
         """
         with open(file_path, 'r', newline='', encoding='utf-8', errors='ignore') as file:
-            reader = csv.reader(file, delimiter='\t')
+            reader = csv.reader(file, delimiter='\t', quoting=csv.QUOTE_NONE)
             return self.run(reader)
 
     def import_string(self, text: str) -> Document:
@@ -192,7 +192,7 @@ class Importer:
             >>> document = importer.import_string(content)
         """
         lines = text.splitlines()
-        reader = csv.reader(lines, delimiter='\t')
+        reader = csv.reader(lines, delimiter='\t', quoting=csv.QUOTE_NONE)
         return self.run(reader)
 
     def get_error_messages(self) -> str:
